@@ -93,3 +93,139 @@ Print Assumptions C03_reader_new.
 Print Assumptions C03_first_32_bytes_are_the_hash.
 Print Assumptions C03_stream_block.
 Print Assumptions C03_finalize_xof_is_the_stream.
+
+(* ---- the model against the source text: OutputReader -------------------------------------------------------
+   gen/GenXof.v is the text of OutputReader::new / fill_one_block / fill / position / set_position, of
+   std::io::Read::read and of std::io::Seek::seek (src/lib.rs), translated statement by statement (tools/gen_coq.py
+   gen_xof, regenerated from /repo on every run).  A `&mut [u8]` destination is Base/MutSlice.v's pair (what the slice
+   has moved past, what it covers); `platform.xof_many` stays a call of the parameter ext_xof_many (signature anchored
+   in src/platform.rs), instantiated here with m_xof_many = the model's p_xof_many on the number of blocks of the
+   destination; the i128 arithmetic of seek is Base/SInt.v's (Z with range checks), Err(..InvalidInput..) is
+   IoErr "InvalidInput".  Each translated function EQUALS the hand-written model function of Model/RsXof.v on every
+   argument, including the Panic results; the model takes the number n of destination bytes and returns the bytes
+   written, the translation takes the n destination bytes and returns the buffer after the call: the same list.
+   Hypotheses are type invariants of the source only (position_within_block is a u8, a slice length a usize, an i64 is
+   an i64; compress_xof returns [u8; 64] and xof_many fills exactly its destination: xof_shape).
+   Proofs in Proofs/GenXofP.v. *)
+From V Require Import Base.MachInt Base.Arr Base.MutSlice Base.SInt gen.GenConsts gen.GenLibSmall gen.GenXof
+  Proofs.GenLibSmallP Proofs.GenLibLoopsP Proofs.GenXofP.
+
+Theorem C03_lib_src_repr_def :
+  (forall p r, lib_of_rd p r = lib_OutputReader_mk (lib_of_out p (r_out r)) (r_pwb r)) /\
+  (forall r, rd_of_lib r = mkReader (out_of_lib (lib_OutputReader_inner r)) (lib_OutputReader_position_within_block r)) /\
+  (forall p r, rd_of_lib (lib_of_rd p r) = r) /\
+  (forall r, lib_of_rd (lib_Output_platform (lib_OutputReader_inner r)) (rd_of_lib r) = r) /\
+  (forall x, lib_of_seek (SeekStart x) = lib_SeekFrom_Start x) /\
+  (forall d, lib_of_seek (SeekCurrent d) = lib_SeekFrom_Current d) /\
+  (forall d, lib_of_seek (SeekEnd d) = lib_SeekFrom_End d) /\
+  (forall q, io_of_opt (Some q) = IoOk q) /\
+  io_of_opt None = IoErr [73; 110; 118; 97; 108; 105; 100; 73; 110; 112; 117; 116] (* "InvalidInput" *) /\
+  (forall p cv block bl ctr fl out,
+     m_xof_many p cv block bl ctr fl out = p_xof_many p cv block bl ctr fl (N.of_nat (length out) / rs_BLOCK_LEN)) /\
+  (forall p x, fill_map p x = (lib_of_rd p (fst x), snd x)) /\
+  (forall p x, seek_map p x = (lib_of_rd p (fst x), io_of_opt (snd x))) /\
+  (forall p s x, fob_map p s x = (lib_of_rd p (fst x), (fst s ++ snd x, skipn (length (snd x)) (snd s)))) /\
+  (forall p o, xof_shape p o =
+     ((forall ctr fl, length (p_compress_xof p (o_cv o) (o_block o) (o_blen o) ctr fl) = 64%nat) /\
+      (forall ctr fl n bs, p_xof_many p (o_cv o) (o_block o) (o_blen o) ctr fl n = Ok bs -> length bs = (64 * N.to_nat n)%nat))) /\
+  (forall x, seek_arg_ok (SeekStart x) = (x < 2 ^ 64)) /\
+  (forall d, seek_arg_ok (SeekCurrent d) = (- 2 ^ 63 <= d < 2 ^ 63)%Z) /\
+  (forall d, seek_arg_ok (SeekEnd d) = (- 2 ^ 63 <= d < 2 ^ 63)%Z).
+Proof.
+  split; [reflexivity|]. split; [reflexivity|]. split; [exact rd_of_lib_of_rd|]. split; [exact lib_of_rd_of_lib|].
+  repeat split.
+Qed.
+Print Assumptions C03_lib_src_repr_def.
+
+(* the mutable-slice and signed-integer operations the translation uses *)
+Theorem C03_lib_src_mutslice_def : forall (done win b t : list N) (off a : nat),
+  ms_of b = ([], b) /\ ms_win (done, win) = win /\ ms_len (done, win) = N.of_nat (length win) /\
+  ms_write (done, win) off t = (done, firstn off win ++ t ++ skipn (off + length t) win) /\
+  ms_set_win (done, win) t = (done, t) /\
+  ms_advance (done, win) a = (done ++ firstn a win, skipn a win) /\
+  ms_buffer (done, win) = done ++ win.
+Proof. intros. repeat split. Qed.
+Print Assumptions C03_lib_src_mutslice_def.
+
+Theorem C03_lib_src_sint_def : forall (W : N) (a b x : Z),
+  zi_add W a b = (if ((- 2 ^ (Z.of_N W - 1) <=? a + b) && (a + b <? 2 ^ (Z.of_N W - 1)))%Z%bool then Ok (a + b)%Z else Panic 1001) /\
+  zi_as_u W x = Z.to_N (x mod 2 ^ Z.of_N W).
+Proof. intros. split; reflexivity. Qed.
+Print Assumptions C03_lib_src_sint_def.
+
+Theorem C03_lib_src_reader_new : forall p o, lib_OutputReader_new (lib_of_out p o) = lib_of_rd p (reader_new o).
+Proof. exact lib_OutputReader_new_eq. Qed.
+Print Assumptions C03_lib_src_reader_new.
+
+(* fill_one_block on a slice s covering n bytes: the model's result (reader, bytes written) is the translation's
+   (reader, slice advanced past those bytes) *)
+Theorem C03_lib_src_fill_one_block : forall p r s,
+  r_pwb r < 2 ^ 8 -> length (out_root_output_block p (r_out r)) = 64%nat ->
+  lib_OutputReader_fill_one_block (lib_of_rd p r) s
+  = GenLibLoopsP.res_map (fob_map p s) (fill_one_block p r (ms_len s)).
+Proof. exact fill_one_block_eq. Qed.
+Print Assumptions C03_lib_src_fill_one_block.
+
+(* fill: the three phases (finish the partial block; whole blocks through xof_many; the trailing partial block) *)
+Theorem C03_lib_src_fill : forall p r buf,
+  r_pwb r < 2 ^ 8 -> N.of_nat (length buf) < 2 ^ 64 -> xof_shape p (r_out r) ->
+  lib_OutputReader_fill m_xof_many (lib_of_rd p r) buf
+  = GenLibLoopsP.res_map (fill_map p) (reader_fill p r (N.of_nat (length buf))).
+Proof. exact lib_OutputReader_fill_eq. Qed.
+Print Assumptions C03_lib_src_fill.
+
+Theorem C03_lib_src_fill_len : forall p r n r' bs, xof_shape p (r_out r) ->
+  reader_fill p r n = Ok (r', bs) -> N.of_nat (length bs) = n.
+Proof. exact reader_fill_len. Qed.
+Print Assumptions C03_lib_src_fill_len.
+
+Theorem C03_lib_src_position : forall p r, lib_OutputReader_position (lib_of_rd p r) = reader_position r.
+Proof. exact lib_OutputReader_position_eq. Qed.
+Print Assumptions C03_lib_src_position.
+
+Theorem C03_lib_src_set_position : forall p r q,
+  lib_OutputReader_set_position (lib_of_rd p r) q = GenLibLoopsP.res_map (lib_of_rd p) (reader_set_position r q).
+Proof. exact lib_OutputReader_set_position_eq. Qed.
+Print Assumptions C03_lib_src_set_position.
+
+(* Read::read: fill, then Ok(buf.len()) *)
+Theorem C03_lib_src_read : forall p r buf,
+  r_pwb r < 2 ^ 8 -> N.of_nat (length buf) < 2 ^ 64 -> xof_shape p (r_out r) ->
+  lib_OutputReader_Read_read m_xof_many (lib_of_rd p r) buf
+  = GenLibLoopsP.res_map (fun x => (lib_of_rd p (fst x), snd x, IoOk (N.of_nat (length buf))))
+      (reader_fill p r (N.of_nat (length buf))).
+Proof. exact lib_OutputReader_read_eq. Qed.
+Print Assumptions C03_lib_src_read.
+
+(* Seek::seek: the i128 target, the clamp to u64::MAX, the two error cases *)
+Theorem C03_lib_src_seek : forall p r s, seek_arg_ok s ->
+  lib_OutputReader_Seek_seek (lib_of_rd p r) (lib_of_seek s) = GenLibLoopsP.res_map (seek_map p) (reader_seek r s).
+Proof. exact lib_OutputReader_seek_eq. Qed.
+Print Assumptions C03_lib_src_seek.
+
+(* xof_shape holds with the portable kernels at every SIMD degree (the platforms of the correspondence check) *)
+Theorem C03_lib_src_xof_shape_sim : forall d m o, length (o_cv o) = 8%nat -> length (o_block o) = 64%nat ->
+  xof_shape (sim_platform d m) o.
+Proof. exact xof_shape_sim. Qed.
+Print Assumptions C03_lib_src_xof_shape_sim.
+
+(* non-vacuity: the translated functions compute, and agree with the model on a reader driven across block
+   boundaries (the platform is read off the translated records before the two sides are compared) *)
+Definition C03_strip {A} (x : res (lib_OutputReader * A)) : res (reader * A) :=
+  GenLibLoopsP.res_map (fun y => (rd_of_lib (fst y), snd y)) x.
+Example C03_lib_src_nonvacuous :
+  let p := sim_platform 8 16 in
+  let o := b3_root_output Hash [1; 2; 3] in
+  let r1 := mkReader o 7 in
+  let r2 := mkReader (with_counter o 3) 15 in
+  C03_strip (lib_OutputReader_fill m_xof_many (lib_of_rd p (reader_new o)) (repeat 0 7%nat)) = reader_fill p (reader_new o) 7 /\
+  GenLibLoopsP.res_map fst (reader_fill p (reader_new o) 7) = Ok r1 /\
+  C03_strip (lib_OutputReader_Seek_seek (lib_of_rd p r1) (lib_SeekFrom_Current 200%Z)) = Ok (r2, IoOk 207) /\
+  reader_seek r1 (SeekCurrent 200%Z) = Ok (r2, Some 207) /\
+  C03_strip (lib_OutputReader_Seek_seek (lib_of_rd p r2) (lib_SeekFrom_Current (-208)%Z))
+    = Ok (r2, IoErr [73; 110; 118; 97; 108; 105; 100; 73; 110; 112; 117; 116]) /\
+  reader_seek r2 (SeekCurrent (-208)%Z) = Ok (r2, None) /\
+  C03_strip (lib_OutputReader_fill m_xof_many (lib_of_rd p r2) (repeat 0 150%nat)) = reader_fill p r2 150 /\
+  GenLibLoopsP.res_map (fun x => length (snd x)) (reader_fill p r2 150) = Ok 150%nat.
+Proof. vm_compute. repeat split. Qed.
+Print Assumptions C03_lib_src_nonvacuous.
